@@ -166,6 +166,10 @@ Qed.
 
 Lemma builtin_table_nz : Forall (fun e => Forall nz_byte (fst e)) builtin_table.
 Proof. unfold builtin_table, nz_byte. repeat constructor; cbn; lia. Qed.
+(* ... and so is the whole table when the names the application registered are C strings *)
+Lemma full_table_nz extra : Forall (fun e => Forall nz_byte (fst e)) extra ->
+  Forall (fun e : list byte * Z => Forall nz_byte (fst e)) (full_table extra).
+Proof. intros H. unfold full_table. apply Forall_app. split; [exact builtin_table_nz|exact H]. Qed.
 
 Lemma find_call_len tbl s code nlen : find_call tbl s = Some (code, nlen) -> (nlen < length s)%nat.
 Proof.
